@@ -30,7 +30,7 @@ func layoutRuns(mask, n int) []memBlock {
 func init() {
 	checks["C15"] = eng.Check{
 		Hist:        true,
-		Rule:        "Bytes memory. (a) creation: every ordered list of <=3 non-empty blocks (begin 0..7, length 1..3, distinct bytes) incl. overlapping, adjacent and unsorted ones: NewBytes fails iff two blocks share an address, otherwise the full read surface (every Load/Missing for a in 0..11, w in 1..3, Blocks) equals the byte map and the given slices are not aliased. (b) histories: for each of the 64 layouts over addresses 0..5 (one block per run) and a layout split into adjacent blocks, every history of <=2 (quick) / <=3 (thorough) constant stores (addr 0..7, width 1..3, constant exactly/narrower/wider than the write, or equal to the bytes already present) on a fresh real Bytes; full surface after each history; digests of constants handed in and expressions returned re-checked. Non-trivial = history with >=2 stores or creation from >=2 blocks.",
+		Rule:        "Bytes memory. (a) creation: every ordered list of <=3 non-empty blocks (begin 0..7, length 1..3, distinct bytes) incl. overlapping, adjacent and unsorted ones: NewBytes fails iff two blocks share an address, otherwise the full read surface (every Load/Missing for a in 0..11, w in 1..3, Blocks) equals the byte map and the given slices are not aliased. (b) histories: for each of the 64 layouts over addresses 0..5 (one block per run) and a layout split into adjacent blocks, every history of <=2 (quick) / <=3 (thorough) constant stores (addr 0..7, width 1..3, constant exactly/narrower/wider than the write, or equal to the bytes already present) on a fresh real Bytes; full surface after each history; histories of >=2 stores in three read/write interleavings (reads after every store, none between the stores, none before the end); digests of constants handed in and expressions returned re-checked. Non-trivial = history with >=2 stores or creation from >=2 blocks.",
 		Assumptions: []string{"initial blocks are non-empty", "only constants are stored (documented precondition of Bytes.Store)", "no address wrap"},
 		Run: func(r *eng.Run) {
 			// (a) creation
@@ -107,7 +107,7 @@ func init() {
 						d = 2
 					}
 					histories(r, alpha, d, func(ops []memOp) {
-						memDo(r, memCase{Mem: "bytes", Blocks: lay, Ops: append([]memOp{}, ops...), Top: top, MaxA: 11, MaxW: 3})
+						memDoRW(r, memCase{Mem: "bytes", Blocks: lay, Ops: append([]memOp{}, ops...), Top: top, MaxA: 11, MaxW: 3})
 					})
 				}
 			}
@@ -150,8 +150,12 @@ func init() {
 				if r.Quick() && bi%6 != 3 && bi < 64 {
 					a2 = alpha // quick: the wide alphabet on every 6th layout and the sparse bases only
 				}
+				do := memDo
+				if !r.Quick() || bi%6 == 3 || bi >= 64 {
+					do = memDoRW // all read/write interleavings
+				}
 				histories(r, a2, 2, func(ops []memOp) {
-					memDo(r, memCase{Mem: "overlay", Base: b.kind, Blocks: b.blocks, Pre: b.pre, Ops: append([]memOp{}, ops...), MaxA: 7, MaxW: 4})
+					do(r, memCase{Mem: "overlay", Base: b.kind, Blocks: b.blocks, Pre: b.pre, Ops: append([]memOp{}, ops...), MaxA: 7, MaxW: 4})
 				})
 				if depth >= 3 {
 					histories(r, alpha, 3, func(ops []memOp) {
